@@ -1,5 +1,6 @@
 import Labella.Proofs.CalendarLemmas
 import Labella.Proofs.TimeTickLemmas
+import Labella.Proofs.TickCountLemmas
 import Labella.Model.CalSpec
 /-! # C16 — time ticks increase, stay in the domain, sit on calendar boundaries
 # C14 (time part) — time nice() only widens, onto calendar boundaries
@@ -145,6 +146,136 @@ example : ticks 0 86400000 10 =
   decide +kernel
 example : nice 1000 90000000 10 = (0, 97200000) := by
   decide +kernel
+
+/-! ### gaps and counts -/
+
+open Labella Labella.Calendar
+
+/-- nominal spacing (ms) of the methods whose ticks are equally spaced: every `k` seconds/minutes/hours with `k`
+dividing the enclosing minute/hour/day, every day, every week -/
+def uniformStep : TUnit → Int → Option Int
+  | .second, k => if k = 1 ∨ k = 5 ∨ k = 15 ∨ k = 30 then some (k * 1000) else none
+  | .minute, k => if k = 1 ∨ k = 5 ∨ k = 15 ∨ k = 30 then some (k * 60000) else none
+  | .hour, k => if k = 1 ∨ k = 3 ∨ k = 6 ∨ k = 12 then some (k * 3600000) else none
+  | .day, k => if k = 1 then some 86400000 else none
+  | .week, k => if k = 1 then some 604800000 else none
+  | _, _ => none
+
+theorem uniformStep_pos {u : TUnit} {k S : Int} (hS : uniformStep u k = some S) : 0 < S := by
+  cases u <;> simp only [uniformStep] at hS
+  all_goals first
+    | (split at hS
+       · injection hS with hS; subst hS; omega
+       · exact absurd hS (by simp))
+    | exact absurd hS (by simp)
+
+/-- equally spaced methods: the ticks are exactly the instants of the domain in one residue class modulo the spacing
+(residue 0, except weeks: Sundays are 3 days after a multiple of 7 days from the epoch, a Thursday) -/
+theorem ticks_uniform (d0 d1 : Int) (m : Rat) (u : TUnit) (s : Rat) (S : Int)
+    (h : tickMethod (min d0 d1) (max d0 d1) m = .cal u s) (hs : (effSkip s).den = 1)
+    (hS : uniformStep u (effSkip s).num = some S) (x : Int) :
+    x ∈ ticks d0 d1 m ↔
+      (min d0 d1 ≤ x ∧ x ≤ max d0 d1 ∧ x % S = (if u = .week then 259200000 else 0)) := by
+  rw [ticks_cal_mem d0 d1 m u s h hs x]
+  generalize (effSkip s).num = k at hS
+  apply iff_reassoc
+  cases u <;> simp only [uniformStep] at hS
+  · split at hS
+    · injection hS with hS; subst hS
+      simpa using uniform_second k x ‹_›
+    · exact absurd hS (by simp)
+  · split at hS
+    · injection hS with hS; subst hS
+      simpa using uniform_minute k x ‹_›
+    · exact absurd hS (by simp)
+  · split at hS
+    · injection hS with hS; subst hS
+      simpa using uniform_hour k x ‹_›
+    · exact absurd hS (by simp)
+  · split at hS
+    · injection hS with hS; subst hS
+      rename_i hk; subst hk
+      simpa using uniform_day x
+    · exact absurd hS (by simp)
+  · split at hS
+    · injection hS with hS; subst hS
+      rename_i hk; subst hk
+      simpa using uniform_week x
+    · exact absurd hS (by simp)
+  · exact absurd hS (by simp)
+  · exact absurd hS (by simp)
+
+/-- hence all their gaps are equal to the spacing -/
+theorem gaps_uniform (d0 d1 : Int) (m : Rat) (u : TUnit) (s : Rat) (S : Int)
+    (h : tickMethod (min d0 d1) (max d0 d1) m = .cal u s) (hs : (effSkip s).den = 1)
+    (hS : uniformStep u (effSkip s).num = some S) :
+    ∀ g ∈ gapsOf (ticks d0 d1 m), g = S := by
+  exact gaps_residue _ (ticks_incr d0 d1 m) (min d0 d1) (max d0 d1) S _ (uniformStep_pos hS)
+    (fun x => ticks_uniform d0 d1 m u s S h hs hS x)
+
+/-- the millisecond branch is equally spaced too -/
+theorem gaps_ms (d0 d1 : Int) (m : Rat) (s : Rat)
+    (h : tickMethod (min d0 d1) (max d0 d1) m = .ms s) :
+    ∀ g ∈ gapsOf (ticks d0 d1 m), g = (if (effSkip s).floor < 1 then 1 else (effSkip s).floor) := by
+  exact gaps_residue _ (ticks_incr d0 d1 m) (min d0 d1) (max d0 d1) _ 0 (msStep_pos _)
+    (fun x => ticks_ms_mem d0 d1 m s h x)
+
+/-- the step table: every method the table can select is either equally spaced or one of day/2, month/1, month/3 -/
+theorem table_methods (e0 e1 : Int) (m : Rat) (u : TUnit) (s : Rat) (hm : 0 < m)
+    (h : tickMethod e0 e1 m = .cal u s) (hu : u ≠ .year) :
+    (effSkip s).den = 1 ∧
+    ((uniformStep u (effSkip s).num).isSome = true ∨ (u = .day ∧ s = 2) ∨ (u = .month ∧ (s = 1 ∨ s = 3))) := by
+  have _ := hm
+  have T := tickMethod_table e0 e1 m u s h hu
+  have e1' : effSkip (1 : Rat) = 1 := effSkip_of_ge (by norm_num)
+  have e2' : effSkip (2 : Rat) = 2 := effSkip_of_ge (by norm_num)
+  have e3' : effSkip (3 : Rat) = 3 := effSkip_of_ge (by norm_num)
+  have e5' : effSkip (5 : Rat) = 5 := effSkip_of_ge (by norm_num)
+  have e6' : effSkip (6 : Rat) = 6 := effSkip_of_ge (by norm_num)
+  have e12' : effSkip (12 : Rat) = 12 := effSkip_of_ge (by norm_num)
+  have e15' : effSkip (15 : Rat) = 15 := effSkip_of_ge (by norm_num)
+  have e30' : effSkip (30 : Rat) = 30 := effSkip_of_ge (by norm_num)
+  rcases T with ⟨rfl, hs⟩ | ⟨rfl, hs⟩ | ⟨rfl, hs⟩ | ⟨rfl, hs⟩ | ⟨rfl, hs⟩ | ⟨rfl, hs⟩
+  · rcases hs with rfl | rfl | rfl | rfl <;> simp [*, uniformStep]
+  · rcases hs with rfl | rfl | rfl | rfl <;> simp [*, uniformStep]
+  · rcases hs with rfl | rfl | rfl | rfl <;> simp [*, uniformStep]
+  · rcases hs with rfl | rfl <;> simp [*, uniformStep]
+  · subst hs; simp [*, uniformStep]
+  · rcases hs with rfl | rfl <;> simp [*, uniformStep]
+
+/-- **Gap ratio**: consecutive gaps differ by at most a factor of two — every domain, every count -/
+theorem gap_ratio (d0 d1 : Int) (m : Rat) (hm : 0 < m) : gapRatioB (ticks d0 d1 m) = true := by
+  obtain ⟨Q, a, b, R⟩ := row_exists d0 d1 m hm
+  exact gapRatio_of_bounds _ a b (R.sp.gaps _ (ticks_incr d0 d1 m) _ _ R.mem) R.ratio
+
+/-- the chosen table step is within a factor √5 of the target spacing `span/m` (the table's largest ratio between
+neighbouring steps is 5, and the geometric-mean rule picks the nearer one): `S² ≤ 5·target²` and `target² < 5·S²` -/
+theorem table_step_near_target (e0 e1 : Int) (m : Rat) (hm : 0 < m) (i : Nat)
+    (hi : bisectRight Gen.timeScaleSteps (((e1 - e0 : Int) : Rat) / m) = i) (h0 : 0 < i) (hlt : i < Gen.timeScaleSteps.length) :
+    let target : Rat := ((e1 - e0 : Int) : Rat) / m
+    let lo := Gen.timeScaleSteps.getD (i - 1) 1
+    let hi := Gen.timeScaleSteps.getD i 1
+    let S := if target / lo < hi / target then lo else hi
+    S * S ≤ 5 * (target * target) ∧ target * target < 5 * (S * S) := by
+  have _ := hm
+  intro target lo hi' S
+  have sp := bisect_spec target Gen.timeScaleSteps
+  rw [hi] at sp
+  have ta := table_adjacent i h0 hlt
+  exact near_target_core lo hi' target ta.1 (sp.1 (i - 1) (by omega)) (sp.2 hlt) ta.2
+
+/-- **Count**: for counts 2…50 the number of ticks lies between m/2.4 − 1 and 2.4·m + 1, or the domain is shorter
+than m milliseconds and gets one tick per millisecond -/
+theorem tick_count (d0 d1 : Int) (m : Nat) (hm : 2 ≤ m ∧ m ≤ 50) :
+    countB (min d0 d1) (max d0 d1) (m : Rat) (ticks d0 d1 (m : Rat)) = true := by
+  exact count_ok d0 d1 m hm.1
+
+/-- **C16 in full** for the model: the complete tick predicate holds for every domain and every count 2…50 -/
+theorem ticks_ok (d0 d1 : Int) (m : Nat) (hm : 2 ≤ m ∧ m ≤ 50) :
+    ticksOKB d0 d1 (m : Rat) (ticks d0 d1 (m : Rat)) = true := by
+  exact ticksOK_all d0 d1 m hm.1
+
+
 
 end Labella.C16
 
